@@ -213,10 +213,11 @@ impl<F> FnGraph<F> {
         }
 
         stream::poll_fn(move |context| {
-            match fn_done_rx.poll_recv(context) {
-                Poll::Pending => {}
-                Poll::Ready(None) => {}
-                Poll::Ready(Some(fn_id)) => graph_structure
+            // Drain every pending `fn_done` notification: `poll_recv` only registers the waker
+            // when it returns `Poll::Pending`, so stopping after the first `Ready` would leave
+            // later notifications unprocessed with no wake-up scheduled.
+            while let Poll::Ready(Some(fn_id)) = fn_done_rx.poll_recv(context) {
+                graph_structure
                     .children(fn_id)
                     .iter(graph_structure)
                     .for_each(|(_edge_id, child_fn_id)| {
@@ -228,7 +229,7 @@ impl<F> FnGraph<F> {
                                 let _ = fn_ready_tx.try_send(child_fn_id);
                             }
                         }
-                    }),
+                    });
             }
 
             let poll = if let Some(fn_done_tx) = fn_done_tx.as_ref() {
